@@ -100,7 +100,9 @@ pub fn parse_idat(
     let mut idat_chunk_sizes = Vec::new();
     let mut pos = 0;
 
-    while pos < png_idat_stream.len() {
+    // a chunk is at least 12 bytes (length, type, crc); fewer bytes than that after the
+    // last chunk belong to whatever follows the IDAT run
+    while pos + 12 <= png_idat_stream.len() {
         // png chunks start with the length of the chunk
         let chunk_len = u32::from_be_bytes([
             png_idat_stream[pos],
@@ -148,7 +150,8 @@ pub fn parse_idat(
         println!("IDAT boundaries: {:?}", idat_chunk_sizes);
     }
 
-    if deflate_stream.len() < 3 {
+    // zlib header (2 bytes) and adler32 (4 bytes) are split off below
+    if deflate_stream.len() < 6 {
         return err_exit_code(ExitCode::InvalidIDat, "No IDAT data found");
     }
 
